@@ -148,10 +148,12 @@ attribute that ends up in the pending start tag has the requested local name, a 
 engine's namespace stack binds that prefix to the requested URI.
 `_partial`: `hreuse` assumes that the prefix found by `getResultPrefixForNamespace` is not shadowed by a nearer
 declaration (the code does not check — see `names_resolve_attr_ns_counterexample`); `hxml` excludes
-`name="xml:…"` (the code keeps the `xml` prefix, which cannot be re-bound); `hN'` excludes the reserved
+`name="xml:…"` for the code first analysed (it keeps the `xml` prefix, which cannot be re-bound; with
+`C14-attribute-xml-prefix-exact.diff` only `xml:` *with the XML namespace itself* is excluded); `hN'` excludes the reserved
 xmlns namespace URI. -/
 theorem names_resolve_attr_ns_partial (s : St) (name : QN) (N value : String) (ssNs : Option String)
-    (hN : N ≠ "") (hN' : N ≠ xmlnsURI) (hctx : s.ns.createNew ≠ []) (hxml : name.pfx ≠ "xml")
+    (hN : N ≠ "") (hN' : N ≠ xmlnsURI) (hctx : s.ns.createNew ≠ [])
+    (hxml : name.pfx ≠ "xml" ∨ (s.v.xmlPrefixExact = true ∧ N ≠ xmlURI))
     (hlate : (s.v.lateAttrCheck && !s.isElementPending) = false)
     (hreuse : ∀ p, s.resultPrefix N = some p → s.resultNs p = some N) :
     ∃ q : QN, ⟨q, value⟩ ∈ (s.elemAttribute name (some N) ssNs value).1.pendAtts ∧ q.loc = name.loc ∧ q.pfx ≠ "" ∧
@@ -168,7 +170,11 @@ theorem names_resolve_attr_ns_partial (s : St) (name : QN) (N value : String) (s
     · rw [hpl]; exact mem_addAttribute _ _ _
     · rw [hpl]; exact St.resultNs_after_decl t p N hc h1 h2
   unfold St.elemAttribute
-  simp only [hN, hlate, if_false, Bool.false_eq_true]
+  have hx : (s.v.xmlPrefixExact && decide (name.pfx = "xml") && decide (N = xmlURI)) = false := by
+    rcases hxml with h | h
+    · simp [h]
+    · simp [h.2]
+  simp only [hN, hlate, hx, if_false, Bool.false_eq_true]
   cases hr : s.attrReuse name N with
   | some p =>
     -- reuse of an existing prefix
@@ -196,11 +202,17 @@ theorem names_resolve_attr_ns_partial (s : St) (name : QN) (N value : String) (s
     · rw [hpl]; exact hb
   | none =>
     dsimp only
-    by_cases hk : (decide (name.pfx ≠ "") && decide (name.pfx ≠ "xmlns") && !s.attrNsConflict name N) = true
+    by_cases hk : (decide (name.pfx ≠ "") && !s.attrPrefixUnusable name && !s.attrNsConflict name N) = true
     · -- keep the prefix given in the name
       rw [if_pos hk]
-      simp at hk
-      have := key s name.pfx hctx hk.1.1 hxml hk.1.2
+      simp [St.attrPrefixUnusable] at hk
+      have hnx : name.pfx ≠ "xml" := by
+        rcases hxml with h | h
+        · exact h
+        · rcases hk.1.2.2 with e | e
+          · rw [h.1] at e; cases e
+          · exact e
+      have := key s name.pfx hctx hk.1.1 hnx hk.1.2.1
       exact ⟨name, this.1, rfl, hk.1.1, this.2⟩
     · -- a new prefix is invented and declared
       rw [if_neg hk]
@@ -235,7 +247,7 @@ namespace, possibly a shadowed one) the code emits no declaration although the a
 unbound or invented: see `no_undeclared_prefix_counterexample`. -/
 theorem no_undeclared_prefix_partial (s : St) (name : QN) (U value : String)
     (hpend : s.isElementPending = true) (hp0 : name.pfx ≠ "") (hp1 : name.pfx ≠ "xmlns")
-    (hxml : (name.str.toList.take 3 == "xml".toList) = false) (hp2 : name.pfx ≠ "xml")
+    (hxml : s.attrIsXmlName name = false) (hp2 : name.pfx ≠ "xml")
     (hU : U ≠ "") (hctx : s.ns.createNew ≠ []) (hv : s.v.ownPrefixDecl = false)
     (hfree : s.resultPrefix U = none) :
     ∃ q : QN, ⟨q, value⟩ ∈ (s.elemAttribute name none (some U) value).1.pendAtts ∧ q.loc = name.loc ∧ q.pfx ≠ "" ∧
@@ -370,7 +382,7 @@ example : ({} : St).resultNs (({} : St).unique).1 = none := by decide
 bound in the result, the attribute's final prefix is bound to the stylesheet namespace `U`. -/
 theorem no_undeclared_prefix_fixed (s : St) (name : QN) (U value : String)
     (hpend : s.isElementPending = true) (hp0 : name.pfx ≠ "") (hp1 : name.pfx ≠ "xmlns")
-    (hxml : (name.str.toList.take 3 == "xml".toList) = false) (hp2 : name.pfx ≠ "xml")
+    (hxml : s.attrIsXmlName name = false) (hp2 : name.pfx ≠ "xml")
     (hU : U ≠ "") (hctx : s.ns.createNew ≠ []) (hv : s.v.ownPrefixDecl = true) :
     ∃ q : QN, ⟨q, value⟩ ∈ (s.elemAttribute name none (some U) value).1.pendAtts ∧ q.loc = name.loc ∧ q.pfx ≠ "" ∧
       (s.elemAttribute name none (some U) value).1.resultNs q.pfx = some U := by
@@ -449,7 +461,8 @@ theorem prefix_lookup_sound_fixed (s : St) (hv : s.v.shadowCheck = true) (N p : 
 
 /-- with that repair `names_resolve_attr_ns_partial` holds without the shadowing hypothesis -/
 theorem names_resolve_attr_ns_fixed (s : St) (name : QN) (N value : String) (ssNs : Option String)
-    (hN : N ≠ "") (hN' : N ≠ xmlnsURI) (hctx : s.ns.createNew ≠ []) (hxml : name.pfx ≠ "xml")
+    (hN : N ≠ "") (hN' : N ≠ xmlnsURI) (hctx : s.ns.createNew ≠ [])
+    (hxml : name.pfx ≠ "xml" ∨ (s.v.xmlPrefixExact = true ∧ N ≠ xmlURI))
     (hlate : (s.v.lateAttrCheck && !s.isElementPending) = false) (hv : s.v.shadowCheck = true) :
     ∃ q : QN, ⟨q, value⟩ ∈ (s.elemAttribute name (some N) ssNs value).1.pendAtts ∧ q.loc = name.loc ∧ q.pfx ≠ "" ∧
       (s.elemAttribute name (some N) ssNs value).1.resultNs q.pfx = some N :=
@@ -927,5 +940,29 @@ theorem handler_own_bindings_first_fixed (h : Handler) (hv : h.ownFirst = true) 
         · exact ⟨m, List.mem_append_right _ (List.mem_of_find?_eq_some hfind), by simp [hu]⟩
         · refine ⟨n, List.mem_append_left _ (List.mem_filter.mpr ⟨hn, ?_⟩), by simp⟩
           simp [hfind, hu]
+
+
+/-! ## prefixes that merely start with "xml" -/
+
+/-- with `C14-attribute-xml-prefix-exact.diff` a prefix such as `xmlq` is an ordinary prefix for `xsl:attribute` without a
+namespace attribute, so `no_undeclared_prefix_fixed` applies to it (its hypothesis `attrIsXmlName = false` holds). -/
+theorem xml_like_prefix_is_ordinary_fixed (s : St) (name : QN) (hv : s.v.xmlPrefixExact = true) (h : name.pfx ≠ "xml") :
+    s.attrIsXmlName name = false := by
+  simp [St.attrIsXmlName, hv, h]
+
+/-- the code first analysed: `xsl:attribute name="xmlq:a"` (stylesheet `xmlq ↦ urn:b`, nothing declared in the result) is
+added without any declaration — unbound prefix; and `name="xml:x" namespace="urn:c"` stays `xml:x` (replayed on the real
+library). -/
+theorem xml_like_prefix_counterexample :
+    let s := run {} [.elemElementStart ⟨"", "f"⟩ none none none ""]
+    (s.elemAttribute ⟨"xmlq", "a"⟩ none (some "urn:b") "v").1.pendAtts = [⟨⟨"xmlq", "a"⟩, "v"⟩] ∧
+      (s.elemAttribute ⟨"xmlq", "a"⟩ none (some "urn:b") "v").1.resultNs "xmlq" = none ∧
+      (s.elemAttribute ⟨"xml", "x"⟩ (some "urn:c") none "v").1.pendAtts = [⟨⟨"xml", "x"⟩, "v"⟩] := by decide
+
+example :
+    let s := run { v := { xmlPrefixExact := true, ownPrefixDecl := true } } [.elemElementStart ⟨"", "f"⟩ none none none ""]
+    (s.elemAttribute ⟨"xmlq", "a"⟩ none (some "urn:b") "v").1.pendAtts = [⟨⟨"xmlns", "xmlq"⟩, "urn:b"⟩, ⟨⟨"xmlq", "a"⟩, "v"⟩] ∧
+      (s.elemAttribute ⟨"xml", "x"⟩ (some "urn:c") none "v").1.pendAtts = [⟨⟨"xmlns", "ns0"⟩, "urn:c"⟩, ⟨⟨"ns0", "x"⟩, "v"⟩] := by
+  decide
 
 end XalanModel.Props.C14
